@@ -63,7 +63,7 @@ func genC29(t *rapid.T) c29Case {
 		n := rapid.IntRange(3, 6).Draw(t, "nops")
 		names := []string{fmt.Sprintf("c%da", ci), fmt.Sprintf("c%db", ci)}
 		for i := 0; i < n; i++ {
-			op := lzIn{Client: ci, Op: pick(t, "op", "create", "create", "write", "write", "read", "getattr", "setsize", "remove", "mkdir", "rename", "lookup", "readdir", "touchdir", "touchdir", "shwrite", "shsetsize", "shread", "shgetattr", "shtouch", "shlookup", "shlookup"),
+			op := lzIn{Client: ci, Op: pick(t, "op", "create", "create", "write", "write", "read", "getattr", "setsize", "remove", "mkdir", "rename", "lookup", "readdir", "pagedir", "pagedir", "touchdir", "touchdir", "shwrite", "shsetsize", "shread", "shgetattr", "shtouch", "shlookup", "shlookup"),
 				Name: rapid.SampledFrom(names).Draw(t, "name")}
 			switch op.Op {
 			case "rename":
@@ -293,6 +293,9 @@ func runC29(tb stat.TB, c c29Case) {
 	for k := 0; k < c29BurstNames; k++ {
 		v.SeedFile(fmt.Sprintf("/s/burst%d", k), 0644, 0, 0, []byte("b"))
 	}
+	for x := 0; x < 16; x++ {
+		v.SeedFile(fmt.Sprintf("/s/x%02d", x), 0644, 0, 0, []byte("x"))
+	}
 	cfg := cacheCfg{AttrTTLns: 1, AttrSize: 1}
 	if c.Cached {
 		cfg = cacheCfg{AttrTTLns: 3600e9, AttrSize: 10000, DirCache: true, Negative: true}
@@ -356,6 +359,8 @@ func runC29(tb stat.TB, c c29Case) {
 		bw.Wait()
 	}
 
+	// extras in the shared directory that only the paged listings remove (names sorting after everything else)
+	extrasLeft := int32(16)
 	// jitter inside the backend
 	var lcg uint32 = c.Jitter | 1
 	v.SetBefore(func(*vfs.Call) {
@@ -382,7 +387,7 @@ func runC29(tb stat.TB, c c29Case) {
 			for _, in := range ops {
 				fh := handles[in.Name]
 				judged := true
-				if strings.HasPrefix(in.Op, "sh") || in.Op == "touchdir" {
+				if strings.HasPrefix(in.Op, "sh") || in.Op == "touchdir" || in.Op == "pagedir" {
 					judged = false
 				}
 				if fh == nil && (in.Op == "write" || in.Op == "read" || in.Op == "getattr" || in.Op == "setsize") {
@@ -469,6 +474,31 @@ func runC29(tb stat.TB, c c29Case) {
 							}
 							issued[in.Name][fmt.Sprintf("%x", res.Fh)] = true
 							mu.Unlock()
+						}
+					case "pagedir":
+						// the shared directory listed page by page (two or three entries per page) while the other
+						// clients create, remove and rename in it; replies are not judged, the server must survive
+						var cookie uint64
+						var verf [8]byte
+						for page := 0; page < 16; page++ {
+							if page > 0 {
+								// (the listing client deletes as it goes, as rm -r does: extras sort last, so the
+								// directory loses its tail while the cookie moves towards it)
+								for k := 0; k < 2; k++ {
+									if x := atomic.AddInt32(&extrasLeft, -1); x >= 0 {
+										s.nfs(nfsx.ProcRemove, nfsx.ArgsDirop(dir, fmt.Sprintf("x%02d", x)))
+									}
+								}
+							}
+							if in.Len%2 == 0 {
+								res = s.nfs(nfsx.ProcReaddir, nfsx.ArgsReaddir(dir, cookie, verf, 200))
+							} else {
+								res = s.nfs(nfsx.ProcReaddirplus, nfsx.ArgsReaddirplus(dir, cookie, verf, 512, 700))
+							}
+							if res.Status != nfsx.OK || res.EOF || len(res.Entries) == 0 {
+								break
+							}
+							cookie, verf = res.Entries[len(res.Entries)-1].Cookie, res.CookieVerf
 						}
 					case "readdir":
 						res = s.nfs(nfsx.ProcReaddir, nfsx.ArgsReaddir(dir, 0, [8]byte{}, 65536))
